@@ -100,6 +100,19 @@ impl<'a> Gen<'a> {
         }
         s
     }
+    /// `name.f:m(x).g` with a line comment behind the name or behind a link that is not the last one, the rest of the chain on the
+    /// next line: the formatter hangs such a chain (format_function_call `must_hang`), so that the comment swallows nothing
+    fn chain_with_comment(&mut self) -> String {
+        let n = 2 + self.rng.below(2);
+        let at = self.rng.below(n);           // 0: behind the name; i: behind the i-th link (never the last)
+        let mut s = self.name();
+        for i in 0..n {
+            if i == at { self.stats[0] += 1; s.push_str(&format!(" -- s{}{}{}\t", self.rng.below(1000), self.nl(), self.indent())); }
+            if self.rng.chance(1, 2) { let f = self.name(); s.push_str(&format!(".{}", f)); }
+            else { let m = self.name(); let a = if self.rng.chance(1, 2) { "()".to_string() } else { format!("({})", self.atom()) }; s.push_str(&format!(":{}{}", m, a)); }
+        }
+        s
+    }
     fn args(&mut self) -> String {
         match self.rng.below(8) {
             0 => format!(" {}", self.rng.pick(&["\"s\"", "'s'", "[[s]]"])),
@@ -194,7 +207,10 @@ impl<'a> Gen<'a> {
         let s = match kind {
             0 | 1 => { let names = if self.rng.chance(1, 4) { format!("{}, {}", self.name(), self.name()) } else { self.name() };
                        let attr = if self.k.syn == "Lua54" && self.rng.chance(1, 6) { " <const>" } else { "" };
-                       if self.rng.chance(1, 6) { format!("local {}{}", names, attr) } else { let a = self.sp(); let b = self.sp(); let e = self.exprs(2); format!("local {}{}{}={}{}", names, attr, a, b, e) } }
+                       if self.rng.chance(1, 6) { format!("local {}{}", names, attr) }
+                       // where comments go into lists: one local in ten takes a chain of fields and method calls with a line comment behind a link that is not the last
+                       else if matches!(self.k.comments, Comments::Lists | Comments::Anywhere) && self.rng.chance(1, 10) { let e = self.chain_with_comment(); format!("local {}{} = {}", names, attr, e) }
+                       else { let a = self.sp(); let b = self.sp(); let e = self.exprs(2); format!("local {}{}{}={}{}", names, attr, a, b, e) } }
             2 => { let t = self.prefix_chain(false); let t = if t.ends_with(')') || t.ends_with('"') || t.ends_with('\'') || t.ends_with('}') || t.ends_with("]]") || (t.starts_with('(') && self.rng.chance(1, 2)) { self.name() } else { t };
                    let a = self.sp(); let b = self.sp(); let e = self.exprs(2);
                    if self.luau() && self.rng.chance(1, 6) { format!("{}{}+={}{}", t, a, b, self.expr(1)) } else { format!("{}{}={}{}", t, a, b, e) } }
